@@ -3,7 +3,7 @@ CONSTANTS
   HashOf <- mcHash
   KLenOf <- mcKLen
   KeySet <- mcKeys1
-  TimeSet = {1, 2}
+  TimeSet = {1}
   VLens = {4}
   MaxOff = 6
   MaxBatch = 2
@@ -11,13 +11,13 @@ CONSTANTS
   Rollovers = {50, 1000}
   Versions = {1, 2}
   KeyIndex = FALSE
-  TimeIndex = TRUE
+  TimeIndex = FALSE
   OptKeep <- TF
   OptEager <- TF
   OptCheck <- FF
   OptRecover <- FF
   AllowRO = TRUE
-  AllowRmIndex = TRUE
+  AllowRmIndex = FALSE
   AllowMigrate = TRUE
 VIEW view
 INVARIANTS Fidelity NextOK NextDerivable Sorted FirstIsBase IndexDerived IndexLen IxRunInv ConsumeInv GetInv ScanInv StatInv
